@@ -93,7 +93,7 @@ def walk(fn, valuation: Dict[str, bool], norm: Callable[[ast.AST], str], max_ste
             continue
         if node.kind == "return":
             v = a.value if a.value is not None else ast.Constant(value=None)
-            r_ = _fold_ifexp(_Sub(env).visit(clone(v)), valuation, norm)
+            r_ = _fold_atoms(_fold_ifexp(_Sub(env).visit(clone(v)), valuation, norm), valuation, norm)
             try:
                 r_._env, r_._raw = dict(env), v        # for callers that need the attribute stores made on the returned object
             except Exception:
@@ -192,6 +192,27 @@ def _fold_ifexp(e, valuation, norm):
                 return n
             v = (not v) if flip else v
             return n.body if v else n.orelse
+    return F().visit(e)
+
+
+def _fold_atoms(e, valuation, norm):
+    """a sub-expression that IS one of the atoms (a flag computed as `flag = hasattr(g, 'gradient')` and passed on) has the truth value the valuation
+    gives the atom"""
+    if not valuation:
+        return e
+
+    class F(ast.NodeTransformer):
+        def visit(self, n):
+            if isinstance(n, (ast.Call, ast.Compare, ast.BoolOp, ast.UnaryOp)):
+                core, flip = _strip_not(n)
+                try:
+                    t = norm(core)
+                except Exception:
+                    t = None
+                if t in valuation:
+                    v = valuation[t]
+                    return ast.copy_location(ast.Constant(value=(not v) if flip else v), n)
+            return self.generic_visit(n)
     return F().visit(e)
 
 
